@@ -671,7 +671,7 @@ func TestVerifC31(t *testing.T) {
 	if c.Quick() {
 		fams = []c31Family{
 			{name: "3 frames x 1-2 packets, all orders, reorder+loss", shapes: c31Shapes(3, 2), disp: 5, reorder: true, loss: true,
-				configs: c31Configs(startsWrap, ml(2, 5), []int{0, 15}, []int{0, 2}, yes, both)},
+				configs: c31Configs(startsWrap, ml(2, 5), delays, []int{0, 2}, yes, both)},
 			{name: "3 frames x 1-2 packets, displacement<=2, dup", shapes: c31Shapes(3, 2), disp: 2, dup: true,
 				configs: c31Configs(startsWrap, ml(1, 2, 5), []int{0}, pops, yes, both)},
 			{name: "2 frames x 1-3 packets, all orders, reorder+loss", shapes: c31Shapes(2, 3), disp: 5, reorder: true, loss: true,
